@@ -13,9 +13,9 @@ import (
 
 type BaselineOptions struct {
 	Quality  int
-	HY, VY   int  // luma sampling factors (chroma is 1x1); ignored for 1 component
-	Optimise bool // per-image Huffman tables instead of Annex K
-	DRI      int  // restart interval in MCUs, 0 = none
+	HY, VY   int    // luma sampling factors (chroma is 1x1); ignored for 1 component
+	Optimise bool   // per-image Huffman tables instead of Annex K
+	DRI      int    // restart interval in MCUs, 0 = none
 	App      string // "jfif", "adobe", "none"
 	SplitDQT bool
 }
@@ -101,10 +101,10 @@ func fdctQuant(blk *[64]float64, q *[64]int) blkCoef {
 }
 
 type compPlan struct {
-	h, v     int
-	tq, td   int
-	plane    []float64 // level-shifted samples, padded to whole MCUs
-	pw, ph   int
+	h, v   int
+	tq, td int
+	plane  []float64 // level-shifted samples, padded to whole MCUs
+	pw, ph int
 }
 
 // huffman symbol stream: (table class/id, symbol, extra bits)
